@@ -204,6 +204,72 @@ with yield_args (a : args) : list token :=
   | ANamed k v r => yield k ++ TMap :: yield v ++ match r with ANil => [] | _ => TComma :: yield_args r end
   end.
 
+(* ---------------------------------------------------------------- the table's reading as a predicate on trees *)
+Section Wf.
+Variable T : table.
+
+(* a pending rule of rank q is reduced when the look-ahead has rank t *)
+Definition reduces (q t : rank) : Prop := continues t (Some q) = false.
+
+(* the rank an operator token has when it follows a complete operand *)
+Definition tokrank (ts : list token) : option rank :=
+  match ts with
+  | TOp o :: _ => match bin T o with Some q => Some q | None => suf T o end
+  | TLB :: _ => bin T sym_index
+  | _ => None
+  end.
+
+(* right spine: the chain of nodes that end at the last token (right child of Bin,
+   operand of a prefix Un); every open node on it was reduced before a token of rank t *)
+Fixpoint rs_ok (t : rank) (x : tree) : Prop :=
+  match x with
+  | Un o y => (exists q, pre T o = Some q /\ reduces q t) /\ rs_ok t y
+  | Bin o _ r => (exists q, bin T o = Some q /\ reduces q t) /\ rs_ok t r
+  | _ => True
+  end.
+
+(* left spine: the chain of nodes that start at the first token (left child of Bin,
+   operand of Suf, subject of Index); every node on it was shifted over the pending p *)
+Fixpoint ls_ok (p : option rank) (x : tree) : Prop :=
+  match x with
+  | Bin o l _ => (exists q, bin T o = Some q /\ continues q p = true) /\ ls_ok p l
+  | Suf o l => (exists q, suf T o = Some q /\ continues q p = true) /\ ls_ok p l
+  | Index l _ => (exists q, bin T sym_index = Some q /\ continues q p = true) /\ ls_ok p l
+  | _ => True
+  end.
+
+(* the local reading of the table: earlier groups bind tighter, a group associates as
+   declared, a prefix operator takes the tightest operand its group allows;
+   parentheses, brackets and arguments start afresh *)
+Fixpoint wf (x : tree) : Prop :=
+  match x with
+  | Atom _ => True
+  | Wrap y => wf y
+  | Un o y => exists q, pre T o = Some q /\ wf y /\ ls_ok (Some q) y
+  | Bin o l r => exists q, bin T o = Some q /\ wf l /\ wf r /\ rs_ok q l /\ ls_ok (Some q) r
+  | Suf o l => exists q, suf T o = Some q /\ bin T o = None /\ wf l /\ rs_ok q l
+  | Index l a => exists q, bin T sym_index = Some q /\ wf l /\ rs_ok q l /\ wf_args a
+  | ListE a | MapE a | Call _ a => wf_args a
+  end
+with wf_args (a : args) : Prop :=
+  match a with
+  | ANil => True
+  | AEmpty r => wf_args r
+  | AVal x r => wf x /\ wf_args r
+  | ANamed k v r => wf k /\ wf v /\ wf_args r
+  end.
+
+End Wf.
+
+(* the core fragment: atoms, prefix and binary operators, parentheses *)
+Fixpoint core (x : tree) : Prop :=
+  match x with
+  | Atom _ => True
+  | Un _ y | Wrap y => core y
+  | Bin _ l r => core l /\ core r
+  | _ => False
+  end.
+
 (* ---------------------------------------------------------------- decidable equality for the correspondence *)
 Definition token_eqb (a b : token) : bool :=
   match a, b with
